@@ -65,7 +65,7 @@ def bounds(tier):
 def required_regimes(tier):
     return {'fam:dwt1d', 'fam:dwt2d', 'fam:swt', 'fam:dtcwt', 'fam:scat1', 'fam:scat2', 'dtype:constructed32', 'dtype:converted32',
             'dtype:converted64', 'dtype:used64_then_float', 'dtype:used32_then_double', 'accuracy:impulses', 'accuracy:extremal', 'accuracy:mixed_range', 'layout:strided', 'layout:transposed',
-            'layout:expanded', 'layout:channels_last', 'layout:offset', 'mixed_dtype_call'}
+            'layout:expanded', 'layout:channels_last', 'layout:offset', 'layout:batch_sliced', 'layout:channel_expanded', 'mixed_dtype_call'}
 
 
 def _make(item, dt):
@@ -290,15 +290,18 @@ def run(item):
         res.regime('mixed_dtype_call')
         res['notes'].append('mixed_dtype_call_raises')
     # ---- memory layouts (N=2 batch of dense rows, float32 and float64)
-    Vl = V[kinds == 'dense'][:2]
-    if Vl.shape[0] < 2:
-        return res
+    # three channels (so that batch / channel strides matter) unless the layer fixes the channel count
+    C3 = 3
+    shapes3 = shapes if C == 3 else _in_shapes(item, C3)
+    P3 = int(sum(int(np.prod(s_)) for s_ in shapes3))
+    ar3 = np.arange(P3)
+    Vl = np.stack([np.cos(1.3 * ar3 + 0.4), 1e3 * np.sin(0.7 * ar3)]).astype(np.float32).astype(np.float64)
     for dt, mod, ulp in ((torch.float64, m64, EPS64), (torch.float32, m32, EPS32)):
-        ins = [t.to(dt) for t in _split(Vl, shapes)]
+        ins = [t.to(dt) for t in _split(Vl, shapes3)]
         with torch.no_grad():
             ref = _flat(_call(item, mod, [t.contiguous() for t in ins])).double().numpy()
         xm = float(np.abs(Vl).max())
-        for lay in ('strided', 'transposed', 'expanded', 'channels_last', 'offset'):
+        for lay in ('strided', 'transposed', 'expanded', 'channels_last', 'offset', 'batch_sliced', 'channel_expanded'):
             lcfg = dict(cfg, layout=lay, dtype=str(dt).split('.')[-1])
             views = []
             contig = []
@@ -317,6 +320,12 @@ def run(item):
                     v = t[0:1].expand(t.shape)
                 elif lay == 'channels_last':
                     v = t.contiguous(memory_format=torch.channels_last) if t.dim() == 4 else t.transpose(1, -1).contiguous().transpose(1, -1)
+                elif lay == 'batch_sliced':
+                    big = torch.full((2 * t.shape[0],) + tuple(t.shape[1:]), 33.0, dtype=dt)
+                    big[::2] = t
+                    v = big[::2]
+                elif lay == 'channel_expanded':
+                    v = t[:, 0:1].expand(t.shape) if t.dim() >= 3 else t
                 else:
                     buf = torch.full((t.numel() + 5,), 55.0, dtype=dt)
                     buf[3:3 + t.numel()] = t.reshape(-1)
